@@ -46,6 +46,7 @@ type c12Scenario struct {
 	gr     bool
 	nbit   bool
 	llgr   bool
+	sharp  bool
 	// model
 	up         bool
 	deleted    bool
@@ -62,6 +63,12 @@ type c12Scenario struct {
 func init() {
 	simScenarios["gr"] = func(arg string) simScenario {
 		sc := &c12Scenario{arg: arg}
+		if strings.HasSuffix(arg, ";sharp") {
+			// sharp driver: {transport close, re-establish, re-announce v4, End-of-RIB v4, wait exactly to the
+			// next restart / long-lived deadline} - deep histories (several restart cycles) over a tiny alphabet
+			sc.sharp = true
+			arg = strings.TrimSuffix(arg, ";sharp")
+		}
 		switch arg {
 		case "none":
 		case "v4":
@@ -210,6 +217,19 @@ func (sc *c12Scenario) Enabled(w *simWorld) []simEvent {
 	}
 	var ev []simEvent
 	add := func(op string) { ev = append(ev, simEvent{Op: op}) }
+	if sc.sharp {
+		if sc.up {
+			add("close")
+			add("reann4")
+			add("eor4")
+		} else {
+			add("up")
+		}
+		if sc.nextDeadline() > 0 {
+			add("wnext")
+		}
+		return ev
+	}
 	if sc.up {
 		for _, op := range []string{"close", "holdexp", "notif", "hardreset", "srvnotif", "reset", "reann4", "reann6", "eor4", "eor6"} {
 			add(op)
@@ -262,6 +282,19 @@ func (sc *c12Scenario) lose(qualifying bool) {
 		sc.restart = c12R * time.Second
 		sc.restarting = true
 	}
+}
+
+// nextDeadline: time to the next deadline of the reference timeline (restart timer while the session is
+// down, long-lived stale timer), 0 if none runs.
+func (sc *c12Scenario) nextDeadline() time.Duration {
+	var d time.Duration
+	if sc.restart > 0 && !sc.up {
+		d = sc.restart
+	}
+	if sc.llgrLeft > 0 && (d == 0 || sc.llgrLeft < d) {
+		d = sc.llgrLeft
+	}
+	return d
 }
 
 func (sc *c12Scenario) dropAll() {
@@ -426,6 +459,10 @@ func (sc *c12Scenario) Apply(w *simWorld, e simEvent) {
 				sc.llgrLeft = 0
 			}
 		}
+	case "wnext":
+		d := sc.nextDeadline()
+		sc.tick(w, d)
+		sc.elapse(d)
 	case "w1", "w9", "w29":
 		d := map[string]time.Duration{"w1": time.Second, "w9": 9 * time.Second, "w29": 29 * time.Second}[e.Op]
 		sc.tick(w, d)
@@ -512,7 +549,7 @@ func (sc *c12Scenario) Check(w *simWorld, last *simEvent) {
 					"after %s (%s): observer %s should hold P4 via the alternative source (status of the restarting peer's route: %s) but holds %q", ev, sc.arg, o.spec.Name, want, v)
 			}
 			if viaG && want == "llgr" && !c12HasCommunity(v, uint32(bgp.COMMUNITY_LLGR_STALE)) {
-				w.violate("C12:observer:llgr-route-without-LLGR_STALE", "observer %s holds LLGR-stale route %s without the LLGR_STALE community", o.spec.Name, r.name)
+				w.violate("C12:"+sc.tag+"observer:llgr-route-without-LLGR_STALE", "observer %s holds LLGR-stale route %s without the LLGR_STALE community", o.spec.Name, r.name)
 			}
 		}
 	}
@@ -565,6 +602,12 @@ func TestVerif_C12_Sim(t *testing.T) {
 	for _, a := range args {
 		simExplore(t, r, simExploreCfg{Scenario: "gr", Arg: a, Depth: depth, Budget: budget})
 	}
+	deep := 8
+	if vr.Thorough() {
+		deep = 11
+	}
+	simExplore(t, r, simExploreCfg{Scenario: "gr", Arg: "llgr;sharp", Depth: deep, Budget: budget})
+	simExplore(t, r, simExploreCfg{Scenario: "gr", Arg: "v4;sharp", Depth: deep, Budget: budget})
 	if r.Outcomes["status-stale"] == 0 || r.Outcomes["status-llgr"] == 0 {
 		t.Fatalf("ENGINE-ERROR vacuous exploration: stale=%d llgr=%d", r.Outcomes["status-stale"], r.Outcomes["status-llgr"])
 	}
